@@ -4,15 +4,15 @@ import os
 # hdr = header bytes, rec = bytes per op record (used by the shrinker)
 HARNESS = {
     'slist': dict(src=['h_slist.cpp'], hdr=5, rec=3),
-    'tree': dict(src=['h_tree.cpp'], hdr=5, rec=3),
-    'heap': dict(src=['h_heap.cpp'], hdr=4, rec=3),
+    'tree': dict(src=['h_tree.cpp', 'h_static_init.c'], hdr=5, rec=3),
+    'heap': dict(src=['h_heap.cpp', 'h_static_init.c'], hdr=4, rec=3),
     'map': dict(src=['h_map.cpp'], hdr=5, rec=3),
-    'hash': dict(src=['h_hash.cpp'], hdr=7, rec=4, ldflags=['-Wl,--allow-multiple-definition']),
+    'hash': dict(src=['h_hash.cpp', 'h_static_init.c'], hdr=7, rec=4, ldflags=['-Wl,--allow-multiple-definition']),
     'mem': dict(src=['h_mem.cpp'], hdr=4, rec=3),
     'c06t': dict(src=['h_c06t.cpp'], hdr=0, rec=0, lib_only=['memory', 'common']),
     'stray': dict(src=['h_stray.cpp'], hdr=6, rec=1),
     'dlist': dict(src=['h_dlist.cpp'], hdr=5, rec=3),
-    'vector': dict(src=['h_vector.cpp'], hdr=6, rec=5),
+    'vector': dict(src=['h_vector.cpp', 'h_static_init.c'], hdr=6, rec=5),
     'string': dict(src=['h_string.cpp', 'h_string_adapter.c'], deps=['h_string_adapter.h'], hdr=4, rec=6),
     'sort': dict(src=['h_sort.cpp'], hdr=10, rec=3),
     'array': dict(src=['h_array.cpp'], hdr=5, rec=7),
